@@ -811,7 +811,11 @@ def token_verdict(tin, tout):
 
 def corpus_item(job):
     """worker: one source text through the pipeline"""
-    setup, natpath, cid, text, deadline = job
+    setup, natpath, cid, text, (soft, deadline) = job
+    if "~" in cid and soft and time.time() > soft:
+        return {"id": cid, "bytes": len(text), "status": "left-out-budget", "paths": 0, "outputs": 0, "sub_paths": 0, "queries": 0, "solver_time": 0.0,
+                "steps": 0, "obligations": 0, "discharged": 0, "violations": [], "witness": {}, "fns": set(), "models": set(), "native_runs": 0,
+                "doc_nodes": 0, "groups": 0, "sample": None}
     it = setup.interp()
     nat = Native(natpath)
     res = {"id": cid, "bytes": len(text), "status": "ok", "paths": 0, "outputs": 0, "sub_paths": 0, "queries": 0, "solver_time": 0.0,
@@ -982,7 +986,11 @@ def main(tier):
 
 
 def main2(tier, cfg, t0, setup, natpath):
-    deadline = t0 + cfg["budget_s"]
+    # budgets count from after the builds / MIR dump.  `budget_s`: mutants not started by then are left out (and counted in the
+    # evidence as not covered); unit-test inputs and kernel documents are never left out: past 2x the budget the run is inconclusive
+    t1 = time.time()
+    soft = t1 + cfg["budget_s"]
+    deadline = t1 + 2 * cfg["budget_s"]
     rep = common.Reporter(PID)
     only = os.environ.get("VERIF_C17_ONLY", "")
 
@@ -1037,7 +1045,19 @@ def main2(tier, cfg, t0, setup, natpath):
         seen_texts.add(text)
         uniq.append((cid, text))
     tc = time.time()
-    cres = common.fork_map(corpus_item, [(setup, natpath, cid, text, deadline) for cid, text in uniq], J)
+    # unit-test inputs first, then the mutants round-robin over the inputs (a budget cut leaves an even coverage)
+    base = [x for x in uniq if "~" not in x[0]]
+    per = {}
+    for x in uniq:
+        if "~" in x[0]:
+            per.setdefault(base_id(x[0]), []).append(x)
+    rr = []
+    while any(per.values()):
+        for k in list(per):
+            if per[k]:
+                rr.append(per[k].pop(0))
+    uniq = base + rr
+    cres = common.fork_map(corpus_item, [(setup, natpath, cid, text, (soft, deadline)) for cid, text in uniq], J)
     C = {"paths": 0, "outputs": 0, "sub_paths": 0, "queries": 0, "solver_time": 0.0, "steps": 0, "obligations": 0, "discharged": 0, "native_runs": 0}
     cviol, cwit, csamples, status = [], {}, [], {}
     max_bytes = max_nodes = max_groups = max_paths = 0
@@ -1104,7 +1124,7 @@ def main2(tier, cfg, t0, setup, natpath):
             "corpus_unit_test_inputs": len(corpus), "corpus_inputs_not_extracted": skipped,
             "corpus_mutants": "of every unit-test input of <= %d bytes: `/* c */` and `// c\\n` inserted at %s token boundary; every blank/newline token replaced by a line break, by two blank lines, by blanks+tab"
                               % (cfg["mutant_bytes"], "every" if cfg["mutant_stride"] == 1 else "every %d-th" % cfg["mutant_stride"]),
-            "corpus_texts_total": len(uniq), "corpus_status": status, "corpus_max_text_bytes": max_bytes, "corpus_max_doc_nodes": max_nodes,
+            "corpus_texts_total": len(uniq), "corpus_texts_checked": status.get("ok", 0) + status.get("prefix-panic", 0), "corpus_status": status, "corpus_max_text_bytes": max_bytes, "corpus_max_doc_nodes": max_nodes,
             "corpus_max_groups": max_groups, "corpus_max_paths_per_text": max_paths},
         "paths": K["paths"] + C["paths"] + C["sub_paths"], "queries": K["queries"] + C["queries"],
         "solver_time_s": round(K["solver_time"] + C["solver_time"], 2), "mir_blocks_executed": K["steps"] + C["steps"],
